@@ -621,6 +621,10 @@ pub fn supervise<P: Prop>(
             ));
         }
     }
+    if agg.lanes.is_empty() {
+        agg.inconclusive
+            .push("no native lane was run (TUVERIF_LANE selects none)".to_string());
+    }
     let verdict = if !new_violations.is_empty() {
         "violated"
     } else if !agg.inconclusive.is_empty() {
